@@ -4,9 +4,9 @@ func init() {
 	addProperty(&Property{
 		ID:         "C18",
 		Title:      "Every enumerated keyword maps back to the value that printed it",
-		Decided:    "for all declared values of all enum types (exhaustive): String table defines a keyword, FromString maps it back to the same value, keywords are injective (ENUM-TAB); the keyword is a terminal the llir/ll lexer can produce (ENUM-LEX); flag-set printers enumerate exactly the single-bit members between First and Last (ENUM-FLAGS); each FromString is applied to the matching AST keyword node (ENUM-USE); flag-set printers test the empty set first, on the unmodified set (ENUM-FLAGS); no function that converts between keywords and enum values keeps process-level state such as a shared keyword cache (DET-2 restricted to functions with an enum type in their signature); hand-written keyword tables agree with the generated ones (ENUM-HAND); an enum-valued debug-info field is omitted from the text only at its zero value (MD-OMIT, enum fields).",
+		Decided:    "for all declared values of all enum types (exhaustive): String table defines a keyword, FromString maps it back to the same value, keywords are injective (ENUM-TAB); the keyword is a terminal the llir/ll lexer can produce (ENUM-LEX); flag-set printers enumerate exactly the single-bit members between First and Last (ENUM-FLAGS); each FromString is applied to the matching AST keyword node (ENUM-USE); flag-set printers test the empty set first, on the unmodified set (ENUM-FLAGS); no function that converts between keywords and enum values keeps process-level state such as a shared keyword cache (DET-2 restricted to functions with an enum type in their signature); hand-written keyword tables agree with the generated ones (ENUM-HAND); an enum-valued debug-info field is omitted from the text only at its zero value (MD-OMIT, enum fields), and so is every enum-valued field of a global, function, call or memory instruction: its guard holds for every declared non-zero member (ENUM-OMIT).",
 		NotDecided: "all subsets of the flag types beyond the structure of the set printers; acceptance of each keyword by LLVM itself.",
-		Rules:      []RuleUse{{Rule: "ENUM-TAB"}, {Rule: "ENUM-LEX"}, {Rule: "ENUM-FLAGS"}, {Rule: "ENUM-USE"}, {Rule: "DET-2", Filter: tag("enum"), Floor: 1}, {Rule: "ENUM-HAND", Filter: notTag("types"), Floor: 1}, {Rule: "MD-OMIT", Filter: tag("enum"), Floor: 10}},
+		Rules:      []RuleUse{{Rule: "ENUM-TAB"}, {Rule: "ENUM-LEX"}, {Rule: "ENUM-FLAGS"}, {Rule: "ENUM-USE"}, {Rule: "DET-2", Filter: tag("enum"), Floor: 1}, {Rule: "ENUM-HAND", Filter: notTag("types"), Floor: 1}, {Rule: "MD-OMIT", Filter: tag("enum"), Floor: 10}, {Rule: "ENUM-OMIT"}},
 	})
 	addProperty(&Property{
 		ID:         "C19",
@@ -18,17 +18,17 @@ func init() {
 	addProperty(&Property{
 		ID:         "C01",
 		Title:      "Parse then print preserves the meaning of every accepted module",
-		Decided:    "over every construct of the translator and printers: each grammar alternative is dispatched or rejected with an error, never a panic or silent skip (EXH, SIB); scaffold and fill translators agree on the IR type per AST node (PAIR); every syntax accessor of every handled AST node is read and used (ACC) and lands in the like-named IR field (FLOW); every IR field the parser allocates is filled (FLD-W) and every IR field is read by its printer (FLD-P), in grammar order (ORD), under the right opcode keyword (OPC); errors of the translator's own functions are returned, never dropped or turned into panics (ERR), and never accompanied by a module (NILMOD); no success return of a translator precedes an unconditional store to a field of the object being filled (EARLY-RET); a name the printer omits as default is the default the translator substitutes (ELIDE); a debug-info field is omitted only at the zero value the translator leaves for an absent field (MD-OMIT); the result type attached to a parsed getelementptr considers every index and keeps the address space (GEP-RES, GEP-VLEN); literal constants are built only by the literal readers (LIT-CTOR); quoted digit strings are names (ENC-CLASS).",
+		Decided:    "over every construct of the translator and printers: each grammar alternative is dispatched or rejected with an error, never a panic or silent skip (EXH, SIB); scaffold and fill translators agree on the IR type per AST node (PAIR); every syntax accessor of every handled AST node is read and used (ACC) and lands in the like-named IR field (FLOW); every IR field the parser allocates is filled (FLD-W) and every IR field is read by its printer (FLD-P), in grammar order (ORD), under the right opcode keyword (OPC); errors of the translator's own functions are returned, never dropped or turned into panics (ERR), and never accompanied by a module (NILMOD); no success return of a translator precedes an unconditional store to a field of the object being filled (EARLY-RET); a name the printer omits as default is the default the translator substitutes (ELIDE); a debug-info field is omitted only at the zero value the translator leaves for an absent field (MD-OMIT); the result type attached to a parsed getelementptr considers every index and keeps the address space (GEP-RES, GEP-VLEN); literal constants are built only by the literal readers (LIT-CTOR); quoted digit strings are names (ENC-CLASS); the result type the translator attaches to an instruction is the one the library computes for it, so uses print with the type the definition has (TYP-AGREE); enum-valued fields are omitted only at the value the translator substitutes (ENUM-OMIT); sibling alternatives of a scaffold dispatcher apply the same setters (SIB-SET); no field translator depends on the order of `key: value` fields in the input (FLD-LOOP).",
 		NotDecided: "that the printed text means the same to LLVM at the level of values (literal formatting is C09/C10/C11); crashes guarded by data conditions.",
-		Rules:      []RuleUse{{Rule: "EXH"}, {Rule: "SIB"}, {Rule: "PAIR"}, {Rule: "ACC"}, {Rule: "FLOW"}, {Rule: "FLD-W"}, {Rule: "FLD-P"}, {Rule: "ORD"}, {Rule: "OPC"}, {Rule: "ERR"}, {Rule: "NILMOD"}, {Rule: "EARLY-RET"}, {Rule: "ELIDE"}, {Rule: "MD-OMIT"}, {Rule: "GEP-RES"}, {Rule: "GEP-VLEN"}, {Rule: "LIT-CTOR"}, {Rule: "ENC-CLASS"}, {Rule: "SCAF-NAME"}},
+		Rules:      []RuleUse{{Rule: "EXH"}, {Rule: "SIB"}, {Rule: "PAIR"}, {Rule: "ACC"}, {Rule: "FLOW"}, {Rule: "FLD-W"}, {Rule: "FLD-P"}, {Rule: "ORD"}, {Rule: "OPC"}, {Rule: "ERR"}, {Rule: "NILMOD"}, {Rule: "EARLY-RET"}, {Rule: "ELIDE"}, {Rule: "MD-OMIT"}, {Rule: "GEP-RES"}, {Rule: "GEP-VLEN"}, {Rule: "LIT-CTOR"}, {Rule: "ENC-CLASS"}, {Rule: "SCAF-NAME"}, {Rule: "TYP-AGREE"}, {Rule: "ENUM-OMIT"}, {Rule: "SIB-SET"}, {Rule: "FLD-LOOP"}},
 	})
 	addProperty(&Property{
 		ID:         "C03",
 		Title:      "IR built through the constructors prints to valid, faithful LLVM assembly",
-		Decided:    "every constructor parameter is stored, same-typed parameters in the like-named field (CTOR-1); lazily cached result types are computed in the constructor (CTOR-2); every builder method forwards its parameters in order to the like-named constructor, stores the result once, sets Parent and returns it (CTOR-3); every field is read by its printer (FLD-P) in grammar order (ORD) under the right opcode (OPC); the getelementptr constructors compute their result type through the shared walk with the vector length of every index taken from the index type (GEP-WALK, GEP-VLEN on ir and ir/constant); unnamed values are numbered in the order they are printed (NUM-ORDER); the shared gep walk examines every index and keeps the address space (GEP-RES); parameter-list printers write `...` whenever the type is variadic (ELLIPSIS); constructor type checks compare the operands' own types, not synthesised ones (CTOR-CHK).",
+		Decided:    "every constructor parameter is stored, same-typed parameters in the like-named field (CTOR-1); lazily cached result types are computed in the constructor (CTOR-2); every builder method forwards its parameters in order to the like-named constructor, stores the result once, sets Parent and returns it (CTOR-3); every field is read by its printer (FLD-P) in grammar order (ORD) under the right opcode (OPC); the getelementptr constructors compute their result type through the shared walk with the vector length of every index taken from the index type (GEP-WALK, GEP-VLEN on ir and ir/constant); unnamed values are numbered in the order they are printed (NUM-ORDER); the shared gep walk examines every index and keeps the address space (GEP-RES); parameter-list printers write `...` whenever the type is variadic (ELLIPSIS); constructor type checks compare the operands' own types, not synthesised ones (CTOR-CHK); printing and the type / identifier queries cache nothing in the IR beyond IDs and result types, so the text does not depend on when during construction a query was made (OBS-1).",
 		NotDecided: "acceptance of the text by LLVM, execution results, structural identity after re-parsing, and that a constructor's own type check never rejects a well-typed operand beyond the structural clause of CTOR-CHK.",
 		Rules: []RuleUse{{Rule: "CTOR-1"}, {Rule: "CTOR-2"}, {Rule: "CTOR-3"}, {Rule: "FLD-P"}, {Rule: "ORD"}, {Rule: "OPC"},
-			{Rule: "GEP-WALK", Filter: keyPrefix("ir.", "ir/constant."), Floor: 4}, {Rule: "GEP-VLEN", Filter: keyPrefix("ir.", "ir/constant."), Floor: 2}, {Rule: "NUM-ORDER"}, {Rule: "GEP-RES"}, {Rule: "ELLIPSIS"}, {Rule: "CTOR-CHK"}},
+			{Rule: "GEP-WALK", Filter: keyPrefix("ir.", "ir/constant."), Floor: 4}, {Rule: "GEP-VLEN", Filter: keyPrefix("ir.", "ir/constant."), Floor: 2}, {Rule: "NUM-ORDER"}, {Rule: "GEP-RES"}, {Rule: "ELLIPSIS"}, {Rule: "CTOR-CHK"}, {Rule: "OBS-1"}},
 	})
 	addProperty(&Property{
 		ID:         "C15",
@@ -54,10 +54,10 @@ func init() {
 	addProperty(&Property{
 		ID:         "C12",
 		Title:      "Translation is deterministic",
-		Decided:    "every range over a map in the translator and printer is collect-then-sort or has a commutative body (DET-1, all instances, closed over the call graph); nothing reachable from Parse* or printing writes package-level state in llir/llvm, llir/ll or mewmew/float (DET-2); every entry point funnels into ParseString → translate (DET-3); every emitted list is in sorted or recorded textual order (ORD-SORT); no IR object is allocated with a lazily computed type cache, whose first computation during translation would freeze a value that depends on which entity the map iteration reaches first (RACE-3, CACHE-ORDER); no module data aliases caller-owned memory (NO-UNSAFE: ParseBytes copies).",
+		Decided:    "every range over a map in the translator and printer is collect-then-sort or has a commutative body (DET-1, all instances, closed over the call graph); nothing reachable from Parse* or printing writes package-level state in llir/llvm, llir/ll or mewmew/float (DET-2); every entry point funnels into ParseString → translate (DET-3); every emitted list is in sorted or recorded textual order (ORD-SORT); no IR object is allocated with a lazily computed type cache, whose first computation during translation would freeze a value that depends on which entity the map iteration reaches first (RACE-3, CACHE-ORDER); no module data aliases caller-owned memory (NO-UNSAFE: ParseBytes copies); the library starts no goroutine, so one parse is one sequential computation (NO-GO).",
 		NotDecided: "totality of the natural-sort comparison on which sorted results rely (see C20); determinism of the generated LALR parser beyond writing no package-level state; per-entity objects shared between two map iterations (type-based commutativity argument).",
 		Technique:  "static analysis: SSA write-effect summaries closed over the VTA call graph (freshness, singleton-type classification) + go/ast idiom rules for map ranges (DET-1, DET-2, DET-3, ORD-SORT)",
-		Rules:      []RuleUse{{Rule: "DET-1"}, {Rule: "DET-2"}, {Rule: "DET-3"}, {Rule: "ORD-SORT"}, {Rule: "RACE-3"}, {Rule: "CACHE-ORDER"}, {Rule: "NO-UNSAFE"}},
+		Rules:      []RuleUse{{Rule: "DET-1"}, {Rule: "DET-2"}, {Rule: "DET-3"}, {Rule: "ORD-SORT"}, {Rule: "RACE-3"}, {Rule: "CACHE-ORDER"}, {Rule: "NO-UNSAFE"}, {Rule: "NO-GO"}},
 	})
 	addProperty(&Property{
 		ID:         "C13",
@@ -65,7 +65,7 @@ func init() {
 		Decided:    "the only shared memory printing can write (String, WriteTo, LLString, Ident, Type, Name and everything reachable) is the ID fields and lazily cached result types — every other write is to memory allocated by the same call (RACE-1); every ID store happens under the owner's mutex and only when the ID changes or is unassigned, so printers of an already numbered object do not write (RACE-2); every allocation site of a type with a lazy result-type cache fills the cache before the value escapes, so the cache write is dead (RACE-3, CTOR-2).",
 		NotDecided: "the first, numbering print racing with lock-free readers in other goroutines (cross-object reads such as a blockaddress of a not yet numbered block of another function); equality of the texts returned by concurrent calls as such.",
 		Technique:  "static analysis: SSA write-effect closure over the VTA call graph with interprocedural freshness (lockset/guard argument), plus go/ast rules for the lock prologue and change guard (RACE-1, RACE-2, RACE-3)",
-		Rules:      []RuleUse{{Rule: "RACE-1"}, {Rule: "RACE-2"}, {Rule: "RACE-3"}, {Rule: "CTOR-2"}},
+		Rules:      []RuleUse{{Rule: "RACE-1"}, {Rule: "RACE-2"}, {Rule: "RACE-3"}, {Rule: "CTOR-2"}, {Rule: "NO-GO"}},
 	})
 	addProperty(&Property{
 		ID:         "C14",
@@ -85,12 +85,13 @@ func init() {
 	addProperty(&Property{
 		ID:         "C17",
 		Title:      "Metadata IDs are unique and references share node identity",
-		Decided:    "all 29 node types print numbered nodes by ID and inline nodes in place (MD-IDENT); every node the parser allocates is either inline (ID -1) or gets its definition's ID (MD-INLINE); fill translators fill the scaffold object that references resolve to and allocate only for inline nodes (MD-SCAF, PAIR); !N references resolve through one checked lookup (LK-2) and duplicate !N definitions are rejected (DUP); named metadata is merged by append in textual order (MD-MERGE); the printer records every explicit ID before it hands out the first new one, assigns only unused IDs, to unassigned nodes, before writing (MD-ASSIGN; RACE-2 md-tagged: SetID only on nodes whose ID differs); per debug-info field: grammar key ↔ printed field ↔ translator agree (MD-KEY) and the dispatch/coverage rules hold on the metadata translators and printers (EXH, ACC, FLOW, FLD-W, FLD-P restricted to metadata).",
+		Decided:    "all 29 node types print numbered nodes by ID and inline nodes in place (MD-IDENT); every node the parser allocates is either inline (ID -1) or gets its definition's ID (MD-INLINE); fill translators fill the scaffold object that references resolve to and allocate only for inline nodes (MD-SCAF, PAIR); !N references resolve through one checked lookup (LK-2) and duplicate !N definitions are rejected (DUP); named metadata is merged by append in textual order (MD-MERGE); the printer records every explicit ID before it hands out the first new one, assigns only unused IDs, to unassigned nodes, before writing (MD-ASSIGN; RACE-2 md-tagged: SetID only on nodes whose ID differs); per debug-info field: grammar key ↔ printed field ↔ translator agree (MD-KEY) and the dispatch/coverage rules hold on the metadata translators and printers (EXH, ACC, FLOW, FLD-W, FLD-P restricted to metadata). Sibling alternatives of the definition scaffold apply the same setters, so `distinct` is kept for every node kind (SIB-SET); no field loop reads a field that another `key: value` alternative of the same loop writes (FLD-LOOP).",
 		NotDecided: "the arithmetic of the ID counter (smallest unused numbers as such); identity through paths the rules do not model (nodes copied by value).",
 		Rules: []RuleUse{{Rule: "MD-IDENT"}, {Rule: "MD-INLINE"}, {Rule: "MD-SCAF"}, {Rule: "MD-KEY"}, {Rule: "MD-MERGE"}, {Rule: "MD-ASSIGN"},
 			{Rule: "PAIR", Filter: tag("md"), Floor: 25}, {Rule: "LK-2", Filter: tag("md"), Floor: 1}, {Rule: "DUP", Filter: tag("md"), Floor: 1},
 			{Rule: "EXH", Filter: tag("md"), Floor: 200}, {Rule: "ACC", Filter: tag("md"), Floor: 120}, {Rule: "FLOW", Filter: tag("md"), Floor: 150},
-			{Rule: "FLD-W", Filter: tag("md"), Floor: 200}, {Rule: "FLD-P", Filter: tag("md"), Floor: 200}, {Rule: "RACE-2", Filter: keyHas("MetadataIDs"), Floor: 1}, {Rule: "EARLY-RET", Filter: tag("md"), Floor: 2}},
+			{Rule: "FLD-W", Filter: tag("md"), Floor: 200}, {Rule: "FLD-P", Filter: tag("md"), Floor: 200}, {Rule: "RACE-2", Filter: keyHas("MetadataIDs"), Floor: 1}, {Rule: "EARLY-RET", Filter: tag("md"), Floor: 2},
+			{Rule: "SIB-SET", Filter: tag("md"), Floor: 1}, {Rule: "FLD-LOOP", Filter: tag("md"), Floor: 15}},
 	})
 	addProperty(&Property{
 		ID:         "C04",
@@ -118,9 +119,9 @@ func init() {
 	addProperty(&Property{
 		ID:         "C08",
 		Title:      "Unnamed values are numbered exactly as LLVM numbers them",
-		Decided:    "the printer's numbering traversal and the parser's indexing traversal have the same nest, filters and asserted interface (NUM-SHAPE); a type is numbered exactly when it prints a `<ident> = ` prefix, conditional on non-void exactly for call-like types and with the numbering's own skip predicate (NUM-PREFIX); numbering stores only the position counter, starting at 0 and advancing once per unnamed entity, so renumbering an already numbered function changes nothing (NUM-REDERIVE, RACE-2 guard); one numbering authority per ID space (NUM-AUTH); call-like result types are known before numbering (RACE-3).",
+		Decided:    "the printer's numbering traversal and the parser's indexing traversal have the same nest, filters and asserted interface (NUM-SHAPE); a type is numbered exactly when it prints a `<ident> = ` prefix, conditional on non-void exactly for call-like types and with the numbering's own skip predicate (NUM-PREFIX); numbering stores only the position counter, starting at 0 and advancing once per unnamed entity, so renumbering an already numbered function changes nothing (NUM-REDERIVE, RACE-2 guard); one numbering authority per ID space (NUM-AUTH); call-like result types are known before numbering (RACE-3). Every top-level entity the parser indexes by global identifier has passed through the parser's numbering function first (NUM-PARSE).",
 		NotDecided: "the arithmetic of the counters as such; agreement with LLVM's own numbering beyond the traversal order LLVM documents.",
-		Rules:      []RuleUse{{Rule: "NUM-SHAPE"}, {Rule: "NUM-PREFIX"}, {Rule: "NUM-REDERIVE"}, {Rule: "NUM-AUTH"}, {Rule: "NUM-ORDER"}, {Rule: "RACE-2"}, {Rule: "RACE-3"}, {Rule: "TYP-AGREE", Filter: tag("call"), Floor: 3}, {Rule: "ENC-CLASS"}},
+		Rules:      []RuleUse{{Rule: "NUM-SHAPE"}, {Rule: "NUM-PREFIX"}, {Rule: "NUM-REDERIVE"}, {Rule: "NUM-AUTH"}, {Rule: "NUM-ORDER"}, {Rule: "RACE-2"}, {Rule: "RACE-3"}, {Rule: "TYP-AGREE", Filter: tag("call"), Floor: 3}, {Rule: "ENC-CLASS"}, {Rule: "NUM-PARSE"}},
 	})
 	addProperty(&Property{
 		ID:         "C11",
